@@ -558,9 +558,9 @@ def check_spellings(run: Run, impl: Impl, cov):
         # to the type built from the canonical dtype of its code, with equal hash, compatible both ways
         if r["res"][0] != "A":
             continue
-        t = impl.Tensor(labels[r["label"]], (2, "N"))
+        t = impl.Tensor(labels[r["label"]])
         rt = impl.Type._from_onnx(t._to_onnx())
-        c = impl.Tensor(impl.t2d(r["res"][2]), (2, "N"))
+        c = impl.Tensor(impl.t2d(r["res"][2]))
         good = (t == rt and t == c and hash(t) == hash(c) and t._subtype(c) and c._subtype(t))
         if not good:
             n_direct_bad += 1
@@ -571,8 +571,8 @@ def check_spellings(run: Run, impl: Impl, cov):
         run.fail("impl", f"C13/spelling-not-canonical/{short}",
                  f"Tensor({short}) is not equal to the type of its own ONNX element type (not equal to its ONNX round trip)",
                  {"case": "spelling", "spelling": lab0, "all_spellings_affected": labs, "stored_scalar_type": stored,
-                  "how_to_read": "Tensor(<spelling>, (2,'N')) compared with Type._from_onnx(its _to_onnx()) and with "
-                                 "Tensor(tensor_type_to_dtype(code), (2,'N')): ==, hash, _subtype both ways"})
+                  "how_to_read": "Tensor(<spelling>) compared with Type._from_onnx(its _to_onnx()) and with "
+                                 "Tensor(tensor_type_to_dtype(code)): ==, hash, _subtype both ways"})
     for r in bad_rows:
         if r["res"][0] == "A" and r["onnx"] is None:
             run.fail("impl", f"C13/undefined-elem-accepted/{r['label']}",
@@ -866,6 +866,8 @@ def check_shape_pairs(run, impl, cov):
         a = impl.shapes[i]
         for j in range(NSHAPES):
             v = rows[i][j] >> 1
+            if a is not None and impl.shapes[j] is not None and all(isinstance(d, int) for d in a + impl.shapes[j]):
+                hist["all_constant_pairs"] += 1
             if v == 0:
                 hist["raises"] += 1
             elif v == 1:
@@ -1067,9 +1069,72 @@ def check_inline(run, impl, cov, pairs, vals):
     return len(chosen)
 
 
+
+# ------------------------------------------------------------------------------------------------ corpus outside the index domain
+
+B63 = 1 << 63
+CORPUS = [  # (nest, element code, simple shape) — constructor inputs the bounded domain does not contain
+    (0, 1, (-1,)), (0, 1, (None,)), (0, 1, (B63 - 1,)), (0, 1, (B63,)), (0, 1, (-B63,)), (0, 1, (-B63 - 1,)),
+    (0, 7, ("",)), (0, 7, (None,)), (0, 7, ("", 3)), (0, 7, (None, 3)), (0, 7, ("batch", "batch")), (0, 7, ("batch", "x")),
+    (0, 7, (2, 3)), (0, 8, (1, 0)), (0, 8, (0, 1)), (0, 1, (1, 2, 3, 4)), (0, 1, (None, None, None, None, None)),
+    (0, 1, (5, 1, 4, 1)), (0, 1, (4, 5)), (0, 1, (7, 1, "k", 1, 6)), (1, 1, (B63,)), (2, 7, ("", "batch")), (4, 16, (100, "")),
+    (0, 1, ()), (0, 1, None), (6, 26, (0,)),
+]
+
+
+def coq_sdim(d):
+    if d is None:
+        return "SNone"
+    if isinstance(d, str):
+        return f"SStr {coq_str(d)}"
+    return f"SInt ({int(d)})%Z"
+
+
+def check_corpus(run, impl, cov):
+    tys, terms = [], []
+    for n, e, s in CORPUS:
+        tys.append(impl.wrap(n, impl.Tensor(impl.code_dtype[e], s)))
+        ss = "None" if s is None else "(Some " + coq_list([coq_sdim(d) for d in s]) + ")"
+        terms.append(f"nest {n} (match mk_tensor {e} {ss} with Some t => t | None => TTop end)")
+    hdr = HEADER + "Open Scope string_scope.\nDefinition corpus : list ty := " + coq_list(terms, ";\n  ") + ".\n" \
+        "Definition tshape (t : ty) : shape := match t with TTensor _ s => s | _ => None end.\n"
+    exprs = ["map (fun t => match to_onnx t with Some p => enc_proto p | None => 0 end) corpus",
+             "map (fun a => map (val_pair3 a) corpus) corpus",
+             "map (fun a => map (fun b => val_shape_pair (tshape a) (tshape b)) corpus) corpus"]
+    out = [parse_nlist(o) for o in run.coq_eval("c13_corpus", hdr, exprs, shard=3)]
+    K = len(tys)
+    i1 = [impl.val_to_onnx(t) for t in tys]
+    i2 = [impl.val_pair3(a, b) for a in tys for b in tys]
+    shp = [t._shape if isinstance(t, impl.Tensor) else impl.Shape(None) for t in tys]
+    i3 = [impl.val_shape_pair(a, b) for a in shp for b in shp]
+    n_bad = 0
+    for name, iv, mv in (("to_onnx", i1, out[0]), ("subtype", i2, out[1]), ("shape", i3, out[2])):
+        for k, (x, y) in enumerate(zip(iv, mv)):
+            if x != y or len(iv) != len(mv):
+                n_bad += 1
+                a, b = (k, None) if name == "to_onnx" else divmod(k, K)
+                run.fail("corr", f"C13/corpus-{name}-model-vs-impl/{CORPUS[a]}~{CORPUS[b] if b is not None else ''}",
+                         "model and implementation disagree on a corpus type (out-of-domain constructor inputs)",
+                         {"case": "corpus", "what": name, "a": str(CORPUS[a]), "b": str(CORPUS[b]) if b is not None else None, "impl": x, "model": y})
+                break
+    for k, t in enumerate(tys):  # direct oracle: round trip identity wherever the conversion succeeds; '' spells None
+        if i1[k]:
+            rt = impl.Type._from_onnx(t._to_onnx())
+            if rt != t or hash(rt) != hash(t):
+                run.fail("impl", f"C13/roundtrip-not-identity/{t}", "type is not equal to its ONNX round trip", {"case": "corpus", "type": str(CORPUS[k])})
+    for a, b in ((6, 7), (8, 9)):
+        if tys[a] != tys[b] or hash(tys[a]) != hash(tys[b]):
+            run.fail("impl", f"C13/equivalent-spellings-of-a-dimension-unequal/{CORPUS[a][2]}", "'' and None spell the same dimension but give unequal types",
+                     {"case": "corpus", "a": str(CORPUS[a]), "b": str(CORPUS[b])})
+    cov["corpus"] = {"types": K, "evaluations": K + 2 * K * K, "disagreements": n_bad, "refused_to_onnx": sum(1 for v in i1 if not v)}
+    return K + 2 * K * K
+
+
 EXTRA_NOTES = [
-    "Tensor(dtype, (-1,)) and Tensor(dtype, (True,)) are accepted by the constructor (no check that a constant dimension is a natural); "
-    "such types denote no value and are outside C13_subtype_exact (hypothesis wf_ty; C13_subtype_exact_negative_dim_refuted)",
+    "Tensor(dtype, (-1,)) is accepted by the constructor (no check that a constant dimension is a natural); such types denote no value "
+    "and are outside C13_subtype_exact (hypothesis wf_ty; C13_subtype_exact_negative_dim_refuted)",
+    "Tensor(dtype, (True,)) is accepted (bool is an int), equals Tensor(dtype, (1,)) with equal hash, but its _to_onnx() raises "
+    "(onnx.helper rejects a bool dimension); bool dimensions are outside the declared SimpleShape and outside the model",
     "Type() as the LEFT operand of _subtype is judged incompatible with everything but Type() although every value is common "
     "(C13_subtype_exact_top_left_refuted); call boundaries only ever pass Tensor/Sequence/Optional on the left",
 ]
@@ -1086,7 +1151,7 @@ def run(run: Run) -> int:
     total = 0
     try:
         for name, fn in (("single_types", check_single_types), ("protos", check_protos), ("shape_pairs", check_shape_pairs),
-                         ("np", check_np)):
+                         ("np", check_np), ("corpus", check_corpus)):
             t = time.time()
             total += fn(run, impl, cov)
             timing[name] = round(time.time() - t, 1)
@@ -1151,10 +1216,10 @@ def replay(run: Run, case) -> int:
     bad = False
     if kind == "spelling":
         obj = spellings(impl)[d["spelling"]]
-        t = impl.Tensor(obj, (2, "N"))
+        t = impl.Tensor(obj)
         code = int(t._to_onnx().tensor_type.elem_type)
         rt = impl.Type._from_onnx(t._to_onnx())
-        c = impl.Tensor(impl.t2d(code), (2, "N"))
+        c = impl.Tensor(impl.t2d(code))
         print(f"Tensor({d['spelling']}) = {t!r}; ONNX code {code}; round trip {rt!r}; canonical {c!r}")
         print("  == round trip:", t == rt, " == canonical:", t == c, " hash equal:", hash(t) == hash(c),
               " _subtype both ways:", t._subtype(c), c._subtype(t))
